@@ -99,6 +99,31 @@ def marginal_case(case):
     return {"ok": True, "nt": len({x for _, x in case["items"]}) >= 2, "ops": k, "out": "w%d" % w}
 
 
+def wide_marginal_case(case):
+    """{'w': width, 'ones': [[positions of 1s], weight]..., 'lists': [qubit lists]}: sparse distributions on registers wider than a machine word: outcomes that differ only in
+    high positions stay different outcomes of the marginal"""
+    from orquestra.quantum.distributions import MeasurementOutcomeDistribution
+    w = case["w"]
+    items = []
+    for ones, x in case["ones"]:
+        items.append((tuple(1 if q in ones else 0 for q in range(w)), x))
+    tot = sum(F(x) for _, x in items)
+    d = MeasurementOutcomeDistribution(dict(items))
+    k = 0
+    for qs in case["lists"]:
+        qs = list(range(w)) if qs == "all" else list(range(w))[::-1] if qs == "reversed" else qs
+        sub = d.subdistribution(list(qs))
+        k += 1
+        exp = {}
+        for b, x in items:
+            key = tuple(b[q] for q in qs)
+            exp[key] = exp.get(key, F(0)) + F(x) / tot
+        got = sub.distribution_dict
+        if set(got) != set(exp) or any(abs(got[key] - float(v)) > TOL for key, v in exp.items()):
+            return {"ok": False, "msg": "subdistribution on %d of %d subsystems is not the marginal (%d outcomes expected, %d returned)" % (len(qs), w, len(exp), len(got)), "sig": "marginal:wide", "ops": k}
+    return {"ok": True, "nt": True, "ops": k, "out": "w%d" % w}
+
+
 def mk_dist(desc):
     from orquestra.quantum.distributions import MeasurementOutcomeDistribution
     return MeasurementOutcomeDistribution({tuple(b): x for b, x in desc})
@@ -185,7 +210,7 @@ def io_case(case):
     return {"ok": True, "nt": True, "ops": 3, "out": "io"}
 
 
-FUNCS = {"constructor": ctor_case, "marginals": marginal_case, "distances": distance_case, "save_load": io_case}
+FUNCS = {"marginals_wide": wide_marginal_case, "constructor": ctor_case, "marginals": marginal_case, "distances": distance_case, "save_load": io_case}
 
 
 def weight_dicts(w, maxw):
@@ -219,6 +244,12 @@ def run(run):
            ([[[0, 0], -0.5]], "single negative"), ([[[0, 1], 1], [[1, 1], -1e-3]], "small negative"),
            ([[[0, 1], 1.0], [[1, 1], -1e-13]], "tiny negative weight"), ([[[0, 1], 0.5], [[1, 0], 0.5], [[1, 1], -1e-15]], "tiny negative weight next to weights summing to 1"),
            ([[[0], -1e-300], [[1], 1.0]], "denormal-size negative weight")]
+    # ragged keys whose lengths average to the first key's length, in every insertion order; a single longer / shorter key among many
+    for perm in itertools.permutations([[[0, 1], 1], [[0], 2], [[0, 1, 1], 3]]):
+        bad.append(([list(x) for x in perm], "three keys of lengths 1, 2, 3"))
+    for perm in itertools.permutations([[[0, 0], 1], [[1, 1], 1], [[1], 2], [[1, 0, 1], 2]]):
+        bad.append(([list(x) for x in perm], "lengths 2, 2, 1, 3"))
+    bad += [([[[0, 0, 0], 1], [[0, 1, 0], 1], [[1, 1], 1], [[1, 0, 0, 1], 1], [[1, 1, 1], 1]], "one short and one long key among five"), ([[[0, 1], 1], [[], 1]], "an empty key")]
     for items, why in bad:
         for style in ("tuple", "str"):
             cc.append({"items": items, "style": style, "valid": False, "why": why})
@@ -238,6 +269,13 @@ def run(run):
     mc_ += [{"items": [[[0, 10, 2], 1], [[12, 1, 2], 2], [[0, 1, 0], 3], [[12, 10, 0], 4]], "w": 3, "style": st} for st in ("tuple", "comma")]
     mc_ += [{"items": [[[1, 10], 1], [[11, 0], 2]], "w": 2, "style": st} for st in ("tuple", "comma")]   # concatenated digits would coincide: '110'
     mc_ += [{"items": [[[1, 10, 1], 1], [[11, 0, 1], 2], [[1, 1, 1], 4]], "w": 3, "style": "tuple"}]
+    wm = []
+    for w in ((40, 66, 72, 130) if deep else (40, 72)):
+        wstate = [[[q], q + 1] for q in range(w)]                                   # W-state-like: one 1 at every position, pairwise different weights
+        high = [[[w - 1], 1], [[w - 2], 2], [[w - 1, w - 2], 3], [[], 4], [[0], 5], [[0, w - 1], 6]]
+        lists = ["all", "reversed", list(range(w - 4, w)), [w - 1, 0], list(range(0, w, 2)), list(range(1, w))]
+        wm += [{"w": w, "ones": wstate, "lists": lists}, {"w": w, "ones": high, "lists": lists}]
+    secs.append(Section("marginals_wide", wm, wide_marginal_case, horizon=300, desc="sparse distributions on 40-72 (thorough 130) subsystems: marginals on all / the top four / every other subsystem"))
     secs.append(Section("marginals", mc_, marginal_case, horizon=300, desc="subdistribution on every ordered list of distinct qubits vs exact marginals; source untouched"))
     pool = []
     for items in weight_dicts(2, 3 if deep else 2):
